@@ -603,6 +603,13 @@ func TestC01Singleton(t *testing.T) {
 		gen:  kit.FullOpts, hist: concHist,
 		oracle: func(x *run, obs []seen, _ []*Failure) *Failure { return x.checkC01(obs) },
 		nt:     nontrivialC01,
+		// now and then two consumers whose parameter-object types print alike (both declared locally as
+		// "params") and ask for different singletons - of different types, or of one type by name and by type
+		mutate: func(rt *rapid.T, cfg *kit.Config) {
+			if rapid.IntRange(0, 7).Draw(rt, "twins") == 0 {
+				kit.PlantTwins(rt, cfg)
+			}
+		},
 	}, "histories")
 }
 
